@@ -9,6 +9,8 @@ TYPES = {
     "none_int": ("None", "3"), "nested": ("{'k': [1, (2, 3)]}", "{'k': [1, (2, 4)]}"),
     "bigint": ("2**40", "2**40 + 1"), "empties": ("[]", "{}"), "negint": ("-1", "1"),
     # same entries in another order: what the function returns (str(V), a header line, the first key) depends on it
+    "date": ("datetime.date(2020, 1, 2)", "datetime.date(2020, 1, 3)"), "datetime": ("datetime.datetime(2020, 1, 2, 3, 4)", "datetime.datetime(2020, 1, 2, 3, 5)"),
+    "timedelta": ("datetime.timedelta(days=1)", "datetime.timedelta(days=1, seconds=1)"),
     "dict_order": ("{'a': 1, 'b': 2}", "{'b': 2, 'a': 1}"), "set_like_list": ("[1, 2]", "[2, 1]"),
 }
 CONTEXTS = ["stmt", "if", "else", "for", "while", "with", "try", "finally", "listcomp", "genexp", "dictlit", "fstring", "ifexp",
@@ -270,6 +272,22 @@ def unit_twice(kind):
             "entries": {"eval_root": {"kind": "eval", "fn": "root"}}, "eps": [{"id": "A", "kind": "lit_arg", "n": 2, "values": ["1", "3"]}]}
 
 
+def unit_same_path_twice(kind):
+    """one path kept twice in one evaluation: with different arguments (one path cannot hold both: right values or a refusal
+    before anything runs) or twice with the same call (fine)"""
+    a2 = {"lit": {"lit": "2"}, "same": {"lit": "1"}, "rt": {"local": 0}}[kind]
+    funcs = [{"name": "K", "module": "main", "params": [["x", None]], "body": []},
+             {"name": "root", "module": "main", "params": [], "body": [
+                 {"k": "const", "expr": "@A"},
+                 {"k": "keep", "path": "/t/a", "fn": "K", "args": [{"lit": "1"}]},
+                 {"k": "keep", "path": "/t/a", "fn": "K", "args": [a2]}]}]
+    sp = {"id": f"U/same_path_twice/{kind}", "key": f"same_path_twice|{kind}", "modules": ["main"], "vars": [], "funcs": funcs,
+          "entries": {"eval_root": {"kind": "eval", "fn": "root"}}, "eps": [{"id": "A", "kind": "lit_arg", "n": 2, "values": ["1", "3"]}]}
+    if kind != "same":
+        sp["may_refuse"] = ["OVERLAPPING_PATH"]   # the two right values, or a refusal before anything runs
+    return sp
+
+
 def unit_default_twice():
     """K(x, y=<A>) kept once with y omitted and once with the old default spelled out; the default is the edit point"""
     funcs = [{"name": "K", "module": "main", "params": [["x", None], ["y", "@A"]], "body": []},
@@ -383,6 +401,7 @@ def unit_programs(level="quick"):
     out.append(unit_untracked_obj())
     out += [unit_twice(k) for k in ("x", "x_default", "x_lit")]
     out.append(unit_default_twice())
+    out += [unit_same_path_twice(k) for k in ("lit", "same", "rt")]
     out += [unit_shadow(h) for h in SHADOWS]
     out += [unit_class_attr(), unit_local_import(), unit_inherited()]
     out += [unit_local_module_import(), unit_result_crlf(), unit_nested_rt_keep_in_datafn()]
